@@ -89,7 +89,7 @@ Theorem C02_ask_paths_canonical : forall (R lg : Q -> Q) (pw : Q -> Q -> Q) sp a
 Proof. exact ask_paths_canonical. Qed.
 Print Assumptions C02_ask_paths_canonical.
 
-(* the one-shot branches with fixes/F03 alone (inverse_transform but no deactivate_inactive_dimensions; /repo before fixes/F47):
+(* the one-shot branches with fixes/F03 alone (inverse_transform but no deactivate_inactive_dimensions; /repo before fixes/F49):
    with a rounding that errs upwards by a relative 2^-53 the inactive child comes back one step above its canonical lower
    bound - a member of the space, accepted by tell, but not canonical; the repaired branch returns canonical points *)
 Theorem C02_oneshot_noncanonical_refuted :
